@@ -16,7 +16,6 @@ import re
 from harness import catalog, meshgen, tlaval, x_c07
 from harness import ux as hux
 from harness.core import Machinery
-from harness.pool import pmap
 
 PROP = "C07"
 
@@ -584,10 +583,14 @@ def run(ctx):
     w = x_c07.replay_behaviour(warm)
     if w["skipped"] and not w.get("impl_raised"):
         raise Machinery("warm-up behaviour failed: %s" % w["skipped"])
-    both = pmap(x_c07.replay_behaviour, behs + big)
+    nproc = int(os.environ.get("VERIF_NPROC", "0")) or min(16, os.cpu_count() or 4)
+    both = x_c07.robust_map(x_c07.replay_behaviour, behs + big, nproc)
     results, results_big = both[: len(behs)], both[len(behs) :]
     skipped = {}
     for b, r in list(zip(behs, results)) + list(zip(big, results_big)):
+        if r.get("crashed"):
+            ctx.violation("%s@crash" % beh_id(b), "ProcessSurvives", detail=r["skipped"], sig={"at": "replay"},
+                          replay={"meshes": b["names"], "routes": b["routes"], "calls": b["calls"]})
         if r.get("impl_raised"):
             g = r["impl_raised"].split("(")[1].split(")")[0]
             ctx.violation("%s@Open" % beh_id(b), "SourceOpens", detail=r["impl_raised"],
